@@ -167,6 +167,35 @@ def explicit_typed(rng: random.Random) -> tuple[list[dict], list[dict] | None, s
     return mk([first, second, consumer]), mk(bad), flaw
 
 
+def branch_typed(rng: random.Random) -> tuple[list[dict], list[dict] | None, str]:
+    """strict_types with INFERRED edges and two (or three) exclusive producers of one name: the graph links the consumer to the first-listed
+    producer only, yet every branch can deliver the value — every producer is typed against the consumer, whatever the node order."""
+    k = rng.choice([2, 2, 3])
+    names = [f"br{i}" for i in range(k)]
+    if k == 2:
+        gate = {"name": "gate", "kind": "ifelse", "params": [["flag", None]], "targets": list(names), "body": {"b": "lt", "k": 1}, "defaultOpen": True, "ann": {"flag": "int"}}
+    else:
+        gate = {"name": "gate", "kind": "route", "params": [["flag", None]], "targets": list(names), "multiTarget": False, "fallback": None, "defaultOpen": True,
+                "body": {"b": "table", "rows": [[i, names[i]] for i in range(k)], "dflt": None}, "ann": {"flag": "int"}}
+    want = rng.choice(["int", {"u": ["int", "str"]}])
+    brs = [{"name": nm, "kind": "fn", "params": [["flag", None]], "dataOuts": ["result"], "body": {"b": "tag", "t": nm}, "ann": {"flag": "int", "return": rng.choice(["int", "bool"])}}
+           for nm in names]
+    consumer = {"name": "consumer", "kind": "fn", "params": [["result", None]], "dataOuts": ["out"], "body": {"b": "tag", "t": "consumer"}, "ann": {"result": want, "return": "str"}}
+    good = [gate] + brs + [consumer]
+    bad = copy.deepcopy(good)
+    victim = bad[1 + rng.randrange(k)]
+    if rng.random() < 0.6:
+        victim["ann"]["return"] = "float"
+        flaw = "type_mismatch_any_branch"
+    else:
+        del victim["ann"]["return"]
+        flaw = "missing_annotation_any_branch"
+    order = list(range(len(good)))
+    rng.shuffle(order)
+    mk = lambda ns: [{"name": "g0", "nodes": [ns[i] for i in order], "bound": [], "strict": True}]   # noqa: E731
+    return mk(good), mk(bad), flaw
+
+
 def mapped_typed(rng: random.Random) -> tuple[list[dict], list[dict] | None, str]:
     """strict_types around a MAPPING nested graph: the mapped input takes the list of items, a broadcast input takes the plain value, every
     output is a list of per-item results."""
@@ -489,7 +518,7 @@ class C19(Prop):
         d1 = [e for _, e in tu.type_universe(1)] if tier == "thorough" else None
         i = 0
         # every dedicated family is visited several times per run, whatever the seed
-        forced = [n_way_gate, signal_branches, explicit_typed, mapped_typed, signal_branches, tuple_typed] * 4
+        forced = [n_way_gate, signal_branches, explicit_typed, mapped_typed, signal_branches, tuple_typed, branch_typed] * 4
         while True:
             i += 1
             if i % 4 == 0:
@@ -504,7 +533,7 @@ class C19(Prop):
                 continue
             r = rng.random()
             if forced or r < 0.09:
-                fam = forced.pop() if forced else rng.choice([n_way_gate, signal_branches, signal_branches, explicit_typed, mapped_typed, tuple_typed])
+                fam = forced.pop() if forced else rng.choice([n_way_gate, signal_branches, signal_branches, explicit_typed, mapped_typed, tuple_typed, branch_typed])
                 valid, flawed, flaw = fam(rng)
                 if rng.random() < 0.3 and fam is not mapped_typed:
                     # the same inside a nested graph
